@@ -194,7 +194,8 @@ func c10AfterExp(site c10Vars) string {
 
 // hosts: 0 top, x unset; 1 top, x set; 2 loop with loop variable x; 3 loop with loop variable q, x set before;
 // 4 block body of an extending child, x set; 5 the same, x unset; 6 macro body with parameter x;
-// 7 loop whose variable x shadows a set outer x, first with null then with a string
+// 7 loop whose variable x shadows a set outer x, first with null then with a string;
+// 8 top level of a template that has already completed blocks named like the target's
 func c10Build(host, k, mode, hashKind int) (tpls map[string]string, ctx map[string]stick.Value, want string) {
 	tpls = map[string]string{}
 	for n, s := range c10Tpls {
@@ -248,6 +249,11 @@ func c10Build(host, k, mode, hashKind int) (tpls map[string]string, ctx map[stri
 		s, o := c10Stmt(k, mode, hashKind, site)
 		tpls["main"] = "{% extends 'hostbase' %}{% block a %}" + pre + "[" + s + "]" + c10After + "{% endblock %}{% block b %}hostb{% endblock %}"
 		want = "HB([" + o + "]" + c10AfterExp(site) + "/hostb)"
+	case 8: // a non-extending host that has already completed blocks named like the target's (and defines more after the call)
+		site := base.copy()
+		s, o := c10Stmt(k, mode, hashKind, site)
+		tpls["main"] = "{% block a %}ha{% endblock %}{% block b %}hb{% endblock %}[" + s + "]" + c10After + "{% block eb %}he{% endblock %}"
+		want = "hahb[" + o + "]" + c10AfterExp(site) + "he"
 	case 6:
 		ctx = map[string]stick.Value{"hv": hv}
 		site := c10Vars{"x": "mx"}
@@ -258,7 +264,7 @@ func c10Build(host, k, mode, hashKind int) (tpls map[string]string, ctx map[stri
 	return
 }
 
-const c10Hosts = 8
+const c10Hosts = 9
 
 // Nested calls: the statement under test sits inside a template that is itself included (wrapper 0) or
 // inside the override block of an embed (wrapper 1), called with its own mode and with-hash. The inner call
@@ -402,7 +408,7 @@ func c10Run(c core.Case) core.Result {
 
 func c10Levels(tier string) []core.Level {
 	return []core.Level{
-		{Name: "full product: 8 call sites / host states x 21 include/embed statements x {plain, with, only, with only} x 3 with-hashes (two literals and a host variable holding a Go map, which must be unchanged afterwards)", Gen: func(emit func(core.Case)) {
+		{Name: "full product: 9 call sites / host states x 21 include/embed statements x {plain, with, only, with only} x 3 with-hashes (two literals and a host variable holding a Go map, which must be unchanged afterwards)", Gen: func(emit func(core.Case)) {
 			for host := 0; host < c10Hosts; host++ {
 				for k := 0; k < c10Stmts; k++ {
 					for mode := 0; mode < 4; mode++ {
